@@ -1,8 +1,643 @@
 /-
-  C15 — commands reach exactly the selected backends, in order.  (theorems: see below)
+  C15 — commands reach exactly the selected backends, in order.
+
+  Connection layer (`Lmd.processBatch`, `Lmd.sessionEvents`: pure functions from the requests read on a client
+  connection to the list of events, among them `.flush q` = "hand the queue `q` to the peers"):
+
+  1. `routing_exact`, `routing_with_multiplicity`, `sent_iff_selected`, `not_configured_gets_nothing`
+                                what one batch hands to a peer: exactly the command lines whose `Backends`
+                                selection contains it, in the order received, once each.
+  2. `batch_together`, `batch_queue_entries`, `batch_no_flush_iff`, `flushed_queues_wellformed`
+                                a batch of commands travels as one queue with one entry per peer.
+  3. `expand_spec`, `expand_nodup`, `unknown_backend_selects_nothing`   the `Backends` header.
+  4. `parse_error_sends_nothing`  a batch with a request that does not parse forwards nothing.
+  5. `session_routing`, `session_routing_general`, `servedPrefix_prefix`, `session_prefix`   whole sessions.
+
+  Peer layer (`Lmd.sendCommands`, `Lmd.sendWithRetry`, `Lmd.peerSend` on the peer state machine):
+
+  6. `down_never_sent`, `peerSend_down`
+  7. `at_most_one_delivery`, `attempts_bounded`, `retry_at_most_once`
+  8. `delivery_complete`, `silent_backend_accepts`
+  9. `reply_empty_ok`, `reply_blank_ok`, `reply_rejected`, `reply_garbage`, `rejection_returned`,
+     `rejection_not_failure`
+  10. `accepted_refreshes`, `sent_refreshes`, `accepted_is_due`, `accepted_next_pass_fetches_all`
+  11. `waiting_sends_nothing`
+
+  Helper lemmas live in `Lmd.Lemmas.CommandLemmas`.
 -/
-import Lmd.Commands
+import Lmd.Lemmas.CommandLemmas
 
 namespace Lmd.C15
+open Lmd
+
+/-! ## vocabulary -/
+
+/-- the peers addressed by a queue, in queue order -/
+def peersOf (q : Queue) : List String := q.map (·.1)
+
+/-- everything a queue holds for peer `p`: the commands of every entry addressed to `p`, in queue order -/
+def queueFor (q : Queue) (p : String) : List String :=
+  q.flatMap fun e => if e.1 = p then e.2 else []
+
+/-- everything a list of connection events hands to peer `p`: the concatenation over the flushes, in order -/
+def sentTo (evs : List Event) (p : String) : List String :=
+  evs.flatMap fun e =>
+    match e with
+    | .flush q => queueFor q p
+    | _ => []
+
+/-- the command lines of `reqs` whose `Backends` selection contains `p`, in the order received -/
+def cmdsFor (peers : List String) (reqs : List CReq) (p : String) : List String :=
+  reqs.flatMap fun r =>
+    match r with
+    | .cmd line bs _ => if p ∈ expandBackends peers bs then [line] else []
+    | _ => []
+
+/-- the same with multiplicity: a command line is listed as often as `p` occurs in the expanded selection (this only
+    differs from `cmdsFor` when the configured peer list itself names a peer twice) -/
+def cmdsForCount (peers : List String) (reqs : List CReq) (p : String) : List String :=
+  reqs.flatMap fun r =>
+    match r with
+    | .cmd line bs _ => List.replicate ((expandBackends peers bs).count p) line
+    | _ => []
+
+/-- the part of a batch that is processed: everything up to and including the first GET without keep-alive
+    (the connection is closed after its answer) -/
+def processed : List CReq → List CReq
+  | [] => []
+  | .get i false :: _ => [.get i false]
+  | r :: rest => r :: processed rest
+
+/-- the requests a session without parse errors works on, read off the request list by a state machine whose state
+    is the keep-alive flag the connection has if the current batch ends here (at the start: the flag the session
+    starts with).  A command sets the state to its own keep-alive flag.  An empty line ends the batch: the session
+    goes on only in state keep-alive.  A GET with keep-alive is answered and the session goes on; a GET without is
+    answered and ends the session. -/
+def servedPrefix : Bool → List CReq → List CReq
+  | _, [] => []
+  | ka, .blank :: rest => if ka then .blank :: servedPrefix true rest else []
+  | _, .cmd l bs k :: rest => .cmd l bs k :: servedPrefix k rest
+  | _, .get i k :: rest => if k then .get i true :: servedPrefix true rest else [.get i false]
+  | _, .bad _ :: _ => []
+
+/-- the queue the commands of a batch build up, starting empty -/
+def batchQueue (peers : List String) (reqs : List CReq) : Queue :=
+  reqs.foldl (fun q r =>
+    match r with
+    | .cmd line bs _ => q.addAll (expandBackends peers bs) line
+    | _ => q) []
+
+/-! ### the vocabulary above is the vocabulary of the lemma file -/
+
+private theorem sentTo_eq (evs : List Event) (p : String) : sentTo evs p = CmdL.sentTo evs p := by
+  rfl
+
+private theorem cmdsFor_eq (peers : List String) (reqs : List CReq) (p : String) :
+    cmdsFor peers reqs p = CmdL.cmdsFor peers reqs p := rfl
+
+private theorem cmdsForCount_eq (peers : List String) (reqs : List CReq) (p : String) :
+    cmdsForCount peers reqs p = CmdL.cmdsForCount peers reqs p := by
+  rfl
+
+private theorem processed_eq : ∀ (l : List CReq), processed l = CmdL.processed l
+  | [] => rfl
+  | .get i false :: rest => rfl
+  | .get i true :: rest => by
+    rw [processed, CmdL.processed_cons, processed_eq rest]
+    · rfl
+    · intro i' h; cases h
+  | .cmd line bs k :: rest => by
+    rw [processed, CmdL.processed_cons, processed_eq rest]
+    · rfl
+    · intro i' h; cases h
+  | .bad j :: rest => by
+    rw [processed, CmdL.processed_cons, processed_eq rest]
+    · rfl
+    · intro i' h; cases h
+  | .blank :: rest => by
+    rw [processed, CmdL.processed_cons, processed_eq rest]
+    · rfl
+    · intro i' h; cases h
+
+private theorem servedPrefix_eq : ∀ (ka : Bool) (l : List CReq), servedPrefix ka l = CmdL.sessionDone ka l
+  | _, [] => rfl
+  | ka, .blank :: rest => by rw [servedPrefix, CmdL.sessionDone, servedPrefix_eq true rest]
+  | _, .cmd l bs k :: rest => by rw [servedPrefix, CmdL.sessionDone, servedPrefix_eq k rest]
+  | _, .get i k :: rest => by rw [servedPrefix, CmdL.sessionDone, servedPrefix_eq true rest]
+  | _, .bad _ :: _ => rfl
+
+private theorem batchQueue_eq (peers : List String) (reqs : List CReq) :
+    batchQueue peers reqs = CmdL.queueOf peers reqs [] := rfl
+
+/-! ## 1. one batch -/
+
+/-- Routing of one batch, for configured peers that are pairwise different (lmd refuses a configuration with a
+    duplicate peer id): what the flushes of `processRequests` hand to peer `p`, concatenated in order, is exactly
+    the list of command lines — unchanged, in the order received, each once — of those commands among the
+    processed requests whose `Backends` header (all peers if absent) selects `p`.  Nothing is lost, nothing is
+    duplicated, nothing is reordered, and a peer that is not selected receives nothing. -/
+theorem routing_exact (peers : List String) (reqs : List CReq) (ka : Bool) (p : String) (hn : peers.Nodup) :
+    sentTo (processBatch peers reqs [] ka).1 p = cmdsFor peers (processed reqs) p := by
+  rw [sentTo_eq, cmdsFor_eq, processed_eq, CmdL.processBatch_sentTo peers p reqs [] ka (by simp [CmdL.keys]),
+    CmdL.cmdsForCount_eq_cmdsFor peers _ p hn]
+  rfl
+
+/-- Routing of one batch for an arbitrary configured peer list: as `routing_exact`, but a command is handed to `p`
+    as often as `p` occurs in the expanded selection. -/
+theorem routing_with_multiplicity (peers : List String) (reqs : List CReq) (ka : Bool) (p : String) :
+    sentTo (processBatch peers reqs [] ka).1 p = cmdsForCount peers (processed reqs) p := by
+  rw [sentTo_eq, cmdsForCount_eq, processed_eq, CmdL.processBatch_sentTo peers p reqs [] ka (by simp [CmdL.keys])]
+  rfl
+
+/-- the hypothesis of `routing_exact` is needed: with the peer "a" configured twice a command without header is
+    queued twice for it -/
+example : sentTo (processBatch ["a", "a"] [.cmd "x" [] true] [] true).1 "a" = ["x", "x"] ∧
+    cmdsFor ["a", "a"] (processed [.cmd "x" [] true]) "a" = ["x"] := by decide
+
+/-- non-vacuity of `routing_exact`: three commands with different headers and a GET in between on the peers a, b -/
+example : (processBatch ["a", "b"] [.cmd "c1" ["a"] true, .cmd "c2" [] true, .get 7 true, .cmd "c3" ["b", "zz"] true] [] true).1
+      = [.flush [("a", ["c1", "c2"]), ("b", ["c2"])], .answer 7, .flush [("b", ["c3"])]] ∧
+    sentTo (processBatch ["a", "b"] [.cmd "c1" ["a"] true, .cmd "c2" [] true, .get 7 true, .cmd "c3" ["b", "zz"] true] [] true).1 "b"
+      = ["c2", "c3"] ∧
+    cmdsFor ["a", "b"] (processed [.cmd "c1" ["a"] true, .cmd "c2" [] true, .get 7 true, .cmd "c3" ["b", "zz"] true]) "b"
+      = ["c2", "c3"] := by decide
+
+/-- A command line is handed to peer `p` during a batch if and only if one of the processed commands carries that
+    line and selects `p` (for every configured peer list). -/
+theorem sent_iff_selected (peers : List String) (reqs : List CReq) (ka : Bool) (p line : String) :
+    line ∈ sentTo (processBatch peers reqs [] ka).1 p ↔
+      ∃ bs k, CReq.cmd line bs k ∈ processed reqs ∧ p ∈ expandBackends peers bs := by
+  rw [routing_with_multiplicity]
+  unfold cmdsForCount
+  rw [List.mem_flatMap]
+  constructor
+  · rintro ⟨r, hr, hl⟩
+    cases r with
+    | cmd l bs k =>
+      simp only [List.mem_replicate] at hl
+      obtain ⟨hc, rfl⟩ := hl
+      exact ⟨bs, k, hr, List.count_pos_iff.1 (Nat.pos_of_ne_zero hc)⟩
+    | get i k => cases hl
+    | bad i => cases hl
+    | blank => cases hl
+  · rintro ⟨bs, k, hr, hp⟩
+    refine ⟨_, hr, ?_⟩
+    simp only [List.mem_replicate, and_true]
+    exact Nat.ne_of_gt (List.count_pos_iff.2 hp)
+
+/-- A peer that is not configured never receives anything, whatever the headers say. -/
+theorem not_configured_gets_nothing (peers : List String) (reqs : List CReq) (ka : Bool) (p : String)
+    (h : p ∉ peers) : sentTo (processBatch peers reqs [] ka).1 p = [] := by
+  apply List.eq_nil_iff_forall_not_mem.2
+  intro line hl
+  obtain ⟨bs, _, _, hp⟩ := (sent_iff_selected peers reqs ka p line).1 hl
+  exact h ((CmdL.mem_expand peers bs p).1 hp).1
+
+/-! ## 2. the commands of a batch travel together -/
+
+/-- A batch that consists of commands only produces exactly one flush — of the queue built from all its commands —
+    or no event at all when that queue is empty: the commands of one request batch reach each peer in one piece. -/
+theorem batch_together (peers : List String) (reqs : List CReq) (ka : Bool) (h : ∀ r ∈ reqs, r.isCmd = true) :
+    (processBatch peers reqs [] ka).1 =
+      (if (batchQueue peers reqs).isEmpty then [] else [.flush (batchQueue peers reqs)]) := by
+  rw [batchQueue_eq]
+  exact CmdL.processBatch_cmds peers reqs [] ka h
+
+/-- The queue of a batch has one entry per addressed peer: its peers are pairwise different, all of them are
+    configured, no entry is empty, and (for pairwise different configured peers) the entry of `p` lists exactly the
+    commands that select `p`, in the order received. -/
+theorem batch_queue_entries (peers : List String) (reqs : List CReq) :
+    (peersOf (batchQueue peers reqs)).Nodup ∧
+    (∀ e ∈ batchQueue peers reqs, e.1 ∈ peers ∧ e.2 ≠ []) ∧
+    (peers.Nodup → ∀ p cs, (p, cs) ∈ batchQueue peers reqs → cs = cmdsFor peers reqs p) := by
+  rw [batchQueue_eq]
+  have hwf := CmdL.wf_queueOf peers reqs [] (CmdL.wf_nil peers)
+  refine ⟨hwf.1, fun e he => ⟨hwf.2.2 e.1 (List.mem_map.2 ⟨e, he, rfl⟩), hwf.2.1 e he⟩, fun hn p cs hm => ?_⟩
+  have h1 := CmdL.queueFor_of_mem hwf.1 hm
+  rw [CmdL.queueFor_queueOf peers p reqs [] (by simp [CmdL.keys]), CmdL.cmdsForCount_eq_cmdsFor peers reqs p hn] at h1
+  rw [← h1]
+  rfl
+
+/-- A batch of commands flushes nothing exactly when none of its commands selects a configured peer. -/
+theorem batch_no_flush_iff (peers : List String) (reqs : List CReq) :
+    batchQueue peers reqs = [] ↔ ∀ line bs k, CReq.cmd line bs k ∈ reqs → expandBackends peers bs = [] := by
+  rw [batchQueue_eq]
+  have hk := fun x => CmdL.mem_keys_queueOf peers x reqs []
+  constructor
+  · intro h line bs k hm
+    apply List.eq_nil_iff_forall_not_mem.2
+    intro x hx
+    have := (hk x).2 (.inr ⟨line, bs, k, hm, hx⟩)
+    rw [h] at this
+    cases this
+  · intro h
+    apply List.eq_nil_iff_forall_not_mem.2
+    intro e he
+    have : e.1 ∈ CmdL.keys (CmdL.queueOf peers reqs []) := List.mem_map.2 ⟨e, he, rfl⟩
+    rcases (hk e.1).1 this with h1 | ⟨line, bs, k, hm, hx⟩
+    · cases h1
+    · rw [h line bs k hm] at hx; cases hx
+
+/-- Every queue that is flushed during a session — any requests, any fuel — is non-empty, addresses pairwise
+    different peers, only configured ones, and has no empty entry. -/
+theorem flushed_queues_wellformed (peers : List String) (fuel : Nat) (reqs : List CReq) (ka : Bool) (q : Queue)
+    (h : Event.flush q ∈ sessionEvents peers fuel reqs ka) :
+    q ≠ [] ∧ (peersOf q).Nodup ∧ ∀ e ∈ q, e.1 ∈ peers ∧ e.2 ≠ [] := by
+  obtain ⟨hwf, hne⟩ := CmdL.session_flush_wf peers fuel reqs ka q h
+  exact ⟨hne, hwf.1, fun e he => ⟨hwf.2.2 e.1 (List.mem_map.2 ⟨e, he, rfl⟩), hwf.2.1 e he⟩⟩
+
+/-- non-vacuity of `batch_together`: two commands, one flush with one entry per peer -/
+example : (∀ r ∈ [CReq.cmd "c1" ["b"] true, .cmd "c2" [] false], r.isCmd = true) ∧
+    (processBatch ["a", "b"] [.cmd "c1" ["b"] true, .cmd "c2" [] false] [] true).1 =
+      [.flush [("b", ["c1", "c2"]), ("a", ["c2"])]] := by decide
+
+/-! ## 3. the `Backends` header -/
+
+/-- `ExpandRequestedBackends`: a peer is selected iff it is configured and the header is absent or names it. -/
+theorem expand_spec (peers bs : List String) (p : String) :
+    p ∈ expandBackends peers bs ↔ p ∈ peers ∧ (bs = [] ∨ p ∈ bs) := CmdL.mem_expand peers bs p
+
+/-- The selection names no peer twice when the configured list does not (and never when a header is given). -/
+theorem expand_nodup (peers bs : List String) (h : peers.Nodup ∨ bs ≠ []) : (expandBackends peers bs).Nodup := by
+  rcases h with h | h
+  · exact CmdL.expand_nodup peers bs h
+  · exact CmdL.expand_nodup_of_header peers bs h
+
+/-- A header that names only unknown backends selects nothing (it does not fall back to "all"). -/
+theorem unknown_backend_selects_nothing (peers bs : List String) (hne : bs ≠ []) (h : ∀ b ∈ bs, b ∉ peers) :
+    expandBackends peers bs = [] := by
+  apply List.eq_nil_iff_forall_not_mem.2
+  intro p hp
+  obtain ⟨h1, h2⟩ := (expand_spec peers bs p).1 hp
+  rcases h2 with h2 | h2
+  · exact hne h2
+  · exact h p h2 h1
+
+example : expandBackends ["a", "b"] ["zz", "b", "b"] = ["b"] ∧ expandBackends ["a", "b"] [] = ["a", "b"] ∧
+    expandBackends ["a", "b"] ["zz"] = [] := by decide
+
+/-! ## 4. a request that does not parse -/
+
+/-- If the batch read from the connection (`parseRequestsFromReader`) contains a request that does not parse, the
+    session answers with the parse error of that request and nothing else happens: none of the commands read in
+    that batch is forwarded to any peer. -/
+theorem parse_error_sends_nothing (peers : List String) (fuel : Nat) (reqs : List CReq) (ka : Bool) (i : Nat)
+    (h : CReq.bad i ∈ (readBatch reqs).1) :
+    sessionEvents peers (fuel + 1) reqs ka = [.parseError i] ∧
+      ∀ p, sentTo (sessionEvents peers (fuel + 1) reqs ka) p = [] := by
+  have := CmdL.sessionEvents_bad peers fuel reqs ka i h
+  exact ⟨this, fun p => by rw [this]; rfl⟩
+
+/-- non-vacuity: two commands followed by a request that does not parse -/
+example : CReq.bad 2 ∈ (readBatch [.cmd "c1" [] true, .cmd "c2" [] true, .bad 2, .cmd "c3" [] true]).1 ∧
+    sessionEvents ["a"] 5 [.cmd "c1" [] true, .cmd "c2" [] true, .bad 2, .cmd "c3" [] true] false = [.parseError 2] := by
+  decide
+
+/-! ## 5. whole sessions -/
+
+/-- A session in which every request (commands and GETs) asks for keep-alive, with enough fuel for all rounds of
+    the connection loop: every peer is handed exactly the command lines that select it, in the order received,
+    each once — across all batches of the session. -/
+theorem session_routing (peers : List String) (fuel : Nat) (reqs : List CReq) (ka : Bool) (p : String)
+    (hn : peers.Nodup) (hk : ∀ r ∈ reqs, r.keepAlive = true) (hf : reqs.length < fuel) :
+    sentTo (sessionEvents peers fuel reqs ka) p = cmdsFor peers reqs p := by
+  rw [sentTo_eq, cmdsFor_eq, CmdL.session_all peers p fuel reqs ka hk hf, CmdL.cmdsForCount_eq_cmdsFor peers reqs p hn]
+
+/-- Any session — arbitrary requests (also ones that do not parse, empty lines, requests without keep-alive),
+    arbitrary fuel, arbitrary configured peer list: there is a prefix of the request list such that every peer is
+    handed exactly what the commands of that prefix owe it, in order.  So whatever ends a session, commands are
+    never reordered, never duplicated, and never skipped in favour of a later one. -/
+theorem session_prefix (peers : List String) (fuel : Nat) (reqs : List CReq) (ka : Bool) :
+    ∃ n, ∀ p, sentTo (sessionEvents peers fuel reqs ka) p = cmdsForCount peers (reqs.take n) p := by
+  obtain ⟨done, rest, h1, h2⟩ := CmdL.session_prefix peers fuel reqs ka
+  refine ⟨done.length, fun p => ?_⟩
+  rw [sentTo_eq, cmdsForCount_eq, h2 p, h1, List.take_left']
+  rfl
+
+/-- The general keep-alive semantics for sessions in which every request parses (commands, GETs, empty lines; any
+    keep-alive flags; enough fuel): every peer is handed exactly the command lines of the served prefix that select
+    it, in the order received, each once.  The served prefix ends after the first GET without keep-alive, or at the
+    first empty line that follows a command without keep-alive (or that opens a connection which is not keep-alive);
+    otherwise it is the whole request list. -/
+theorem session_routing_general (peers : List String) (fuel : Nat) (reqs : List CReq) (ka : Bool) (p : String)
+    (hn : peers.Nodup) (hb : ∀ i, CReq.bad i ∉ reqs) (hf : reqs.length < fuel) :
+    sentTo (sessionEvents peers fuel reqs ka) p = cmdsFor peers (servedPrefix ka reqs) p := by
+  have hb' : ∀ r ∈ reqs, CmdL.badReq r = false := by
+    intro r hr
+    cases r with
+    | bad i => exact absurd hr (hb i)
+    | _ => rfl
+  rw [sentTo_eq, cmdsFor_eq, servedPrefix_eq, CmdL.session_done peers p fuel reqs ka hb' hf,
+    CmdL.cmdsForCount_eq_cmdsFor peers _ p hn]
+
+/-- The served prefix is a prefix of the request list. -/
+theorem servedPrefix_prefix (ka : Bool) (reqs : List CReq) : servedPrefix ka reqs <+: reqs := by
+  rw [servedPrefix_eq]; exact CmdL.sessionDone_prefix ka reqs
+
+/-- non-vacuity of `session_routing_general`: a command without keep-alive followed by an empty line ends the
+    session; the command after it is not forwarded -/
+example : (∀ i, CReq.bad i ∉ [CReq.cmd "c1" [] true, .get 1 true, .blank, .cmd "c2" ["b"] false, .blank, .cmd "c3" [] true]) ∧
+    servedPrefix false [.cmd "c1" [] true, .get 1 true, .blank, .cmd "c2" ["b"] false, .blank, .cmd "c3" [] true] =
+      [.cmd "c1" [] true, .get 1 true, .blank, .cmd "c2" ["b"] false] ∧
+    sessionEvents ["a", "b"] 7 [.cmd "c1" [] true, .get 1 true, .blank, .cmd "c2" ["b"] false, .blank, .cmd "c3" [] true] false =
+      [.flush [("a", ["c1"]), ("b", ["c1"])], .answer 1, .flush [("b", ["c2"])]] := by
+  refine ⟨?_, by decide, by decide⟩
+  intro i h
+  simp at h
+
+/-- non-vacuity of `session_routing`: three commands with different `Backends` headers and a GET in between on the
+    peers a, b; the flushed queues -/
+example : (∀ r ∈ [CReq.cmd "c1" ["a"] true, .cmd "c2" [] true, .get 2 true, .cmd "c3" ["b"] true], r.keepAlive = true) ∧
+    sessionEvents ["a", "b"] 6 [.cmd "c1" ["a"] true, .cmd "c2" [] true, .get 2 true, .cmd "c3" ["b"] true] false =
+      [.flush [("a", ["c1", "c2"]), ("b", ["c2"])], .answer 2, .flush [("b", ["c3"])]] ∧
+    sentTo (sessionEvents ["a", "b"] 6 [.cmd "c1" ["a"] true, .cmd "c2" [] true, .get 2 true, .cmd "c3" ["b"] true] false) "a" =
+      ["c1", "c2"] := by decide
+
+/-! ## 6. a backend that is down -/
+
+/-- A peer that is `Down` or `Broken` is answered with its last error at once: the peer state, the backend and the
+    backend's command record are untouched — nothing is sent. -/
+theorem down_never_sent (w : World) (now : Int) (fuel : Nat) (env : List EnvStep) (retries : Nat) (p : PeerSt)
+    (b : BackendSt) (cb : CmdBackend) (cmds : List String) (hf : 0 < fuel)
+    (h : p.status = .down ∨ p.status = .broken) :
+    sendWithRetry w now fuel env retries p b cb cmds = (p, b, cb, .lastError, env) := by
+  obtain ⟨k, rfl⟩ : ∃ k, fuel = k + 1 := ⟨fuel - 1, by omega⟩
+  exact CmdL.sendWithRetry_down w now k env retries p b cb cmds h
+
+/-- The same through the entry point `SendCommandsWithRetry`: the outcome is the last error and the backend's
+    command record is unchanged, whatever happens around the sender. -/
+theorem peerSend_down (w : World) (now : Int) (env : List EnvStep) (p : PeerSt) (b : BackendSt) (cb : CmdBackend)
+    (cmds : List String) (h : p.status = .down ∨ p.status = .broken) :
+    (peerSend w now env p b cb cmds).2.2.2 = .lastError ∧ (peerSend w now env p b cb cmds).2.2.1 = cb := by
+  unfold peerSend
+  simp only []
+  have e := CmdL.sendWithRetry_down w now (env.length + 2) env 0 { p with lastQuery := now, idling := false } b cb cmds h
+  rw [show env.length + 3 = env.length + 2 + 1 from rfl, e]
+  exact ⟨rfl, rfl⟩
+
+/-! ## 7. at most one delivery, at most one retry -/
+
+/-- Whatever the backend does and whatever happens around the sender: afterwards the backend's command record is
+    the old one, or the old one with exactly one more connection on which it read a prefix of the commands given —
+    in order and unchanged.  The reply script of the backend is not touched.  (A connection that cannot be opened
+    delivers nothing; every connection that was opened ends the sender.) -/
+theorem at_most_one_delivery (w : World) (now : Int) (fuel : Nat) (env : List EnvStep) (retries : Nat) (p : PeerSt)
+    (b : BackendSt) (cb : CmdBackend) (cmds : List String) :
+    let cb' := (sendWithRetry w now fuel env retries p b cb cmds).2.2.1
+    cb'.reply = cb.reply ∧ (cb'.batches = cb.batches ∨ ∃ got, cb'.batches = cb.batches ++ [got] ∧ got <+: cmds) :=
+  CmdL.sendWithRetry_delivered w now cmds fuel env retries p b cb
+
+/-- The same for the entry point `SendCommandsWithRetry`. -/
+theorem at_most_one_delivery_peerSend (w : World) (now : Int) (env : List EnvStep) (p : PeerSt) (b : BackendSt)
+    (cb : CmdBackend) (cmds : List String) :
+    let cb' := (peerSend w now env p b cb cmds).2.2.1
+    cb'.reply = cb.reply ∧ (cb'.batches = cb.batches ∨ ∃ got, cb'.batches = cb.batches ++ [got] ∧ got <+: cmds) :=
+  CmdL.sendWithRetry_delivered w now cmds (env.length + 3) env 0 { p with lastQuery := now, idling := false } b cb
+
+/-- `SendCommandsWithRetry` instrumented with a counter of its `SendCommands` calls computes the same result, and
+    the counter never exceeds two (one when a retry was already used). -/
+theorem attempts_bounded (w : World) (now : Int) (fuel : Nat) (env : List EnvStep) (retries : Nat) (p : PeerSt)
+    (b : BackendSt) (cb : CmdBackend) (cmds : List String) :
+    (CmdL.sendWithRetryCount w now fuel env retries p b cb cmds).1 = sendWithRetry w now fuel env retries p b cb cmds ∧
+    (CmdL.sendWithRetryCount w now fuel env retries p b cb cmds).2 ≤ (if retries = 0 then 2 else 1) :=
+  ⟨CmdL.sendWithRetryCount_fst w now cmds fuel env retries p b cb, CmdL.sendWithRetryCount_le w now cmds fuel env retries p b cb⟩
+
+/-- Once a retry was used, a connection error ends the sender with "retries exceeded" and the state `SendCommands`
+    left — there is no second retry. -/
+theorem retry_at_most_once (w : World) (now : Int) (fuel : Nat) (env : List EnvStep) (retries : Nat) (p : PeerSt)
+    (b : BackendSt) (cb : CmdBackend) (cmds : List String) (hs : p.status = .up ∨ p.status = .syncing)
+    (hr : 0 < retries) (he : (sendCommands w now p b cb cmds).2.2.2 = .connErr) :
+    sendWithRetry w now (fuel + 1) env retries p b cb cmds =
+      ((sendCommands w now p b cb cmds).1, (sendCommands w now p b cb cmds).2.1, cb, .retriesExceeded, env) := by
+  rw [CmdL.sendWithRetry_ready w now fuel env retries p b cb cmds hs]
+  simp only [he]
+  rw [if_pos hr]
+  rcases CmdL.sendCommands_cases w now p b cb cmds with ⟨_, h⟩ | ⟨_, _, hne, _⟩
+  · rw [h]
+  · exact absurd he hne
+
+/-! ## 8. complete delivery -/
+
+/-- If the backend stays in mode "ok" and the peer's current address is the backend's, `SendCommands` opens one
+    connection on which the backend reads exactly the commands given — all of them, in order, unchanged; the
+    result is what the backend's replies say. -/
+theorem delivery_complete (w : World) (now : Int) (p : PeerSt) (b : BackendSt) (cb : CmdBackend) (cmds : List String)
+    (hm : b.mode = "ok") (hf : b.failAfter = none) (ha : p.addr = .self) (hs : p.sources ≠ []) :
+    (sendCommands w now p b cb cmds).2.2.1.batches = cb.batches ++ [cmds] ∧
+    (sendCommands w now p b cb cmds).2.2.1.reply = cb.reply ∧
+    (sendCommands w now p b cb cmds).2.1 = { b with hits := b.hits + cmds.length } ∧
+    (sendCommands w now p b cb cmds).2.2.2 =
+      parseCommandReply (String.join (List.replicate cmds.length (if cb.reply == "" then "" else cb.reply ++ "\n"))) := by
+  have hq : (query w now p (CmdL.probeOf b)).2.2 = none := by
+    rw [CmdL.query_self_ok w now p (CmdL.probeOf b) ha hs (CmdL.probeOf_mode_ne_refuse (by rw [hm]; decide)) rfl]
+  rcases CmdL.sendCommands_cases w now p b cb cmds with ⟨h, _⟩ | ⟨_, h1, _, h2, h3⟩
+  · exact absurd hq h
+  · rw [CmdL.backendReads_ok cmds b [] 0 hm hf] at h1 h2 h3
+    rw [h1, h2, h3]
+    refine ⟨?_, rfl, rfl, ?_⟩
+    · simp [CmdL.withBatch]
+    · simp only [Nat.zero_add]; rfl
+
+/-- A backend in mode "ok" that writes nothing back (the normal case: Livestatus commands have no reply) accepts:
+    the result is `ok`. -/
+theorem silent_backend_accepts (w : World) (now : Int) (p : PeerSt) (b : BackendSt) (cb : CmdBackend) (cmds : List String)
+    (hm : b.mode = "ok") (hf : b.failAfter = none) (ha : p.addr = .self) (hs : p.sources ≠ []) (hr : cb.reply = "") :
+    (sendCommands w now p b cb cmds).2.2.2 = .ok := by
+  rw [(delivery_complete w now p b cb cmds hm hf ha hs).2.2.2]
+  have := CmdL.replyText_silent cb cmds.length hr
+  unfold CmdL.replyText at this
+  rw [this]
+  exact CmdL.parseCommandReply_empty
+
+/-! ## 9. the backend's answer -/
+
+/-- No reply means the commands were accepted. -/
+theorem reply_empty_ok : parseCommandReply "" = .ok := CmdL.parseCommandReply_empty
+
+/-- A reply of white space only means the commands were accepted. -/
+theorem reply_blank_ok (resp : String) (h : ∀ c ∈ resp.toList, isGoSpace c = true) : parseCommandReply resp = .ok :=
+  CmdL.parseCommandReply_of_trim_empty resp (CmdL.trimSpace_blank resp h)
+
+/-- A reply that (trimmed) reads `code:msg` with no colon in `code` is a rejection with that code (0 if it is not a
+    number) and the trimmed message. -/
+theorem reply_rejected (resp code msg : String) (h : trimSpace resp = code ++ ":" ++ msg) (hc : ':' ∉ code.toList) :
+    parseCommandReply resp = .rejected ((atoi? code).getD 0) (trimSpace msg) :=
+  CmdL.parseCommandReply_rejected resp code msg h hc
+
+/-- A non-empty reply without any colon is unusable. -/
+theorem reply_garbage (resp : String) (h : trimSpace resp ≠ "") (hc : ':' ∉ (trimSpace resp).toList) :
+    parseCommandReply resp = .garbage (trimSpace resp) := CmdL.parseCommandReply_garbage resp h hc
+
+example : parseCommandReply "400: command not found\n" = .rejected 400 "command not found" ∧
+    trimSpace "400: command not found\n" = "400" ++ ":" ++ " command not found" ∧ ':' ∉ "400".toList := by decide
+
+/-- A rejection is handed back as the outcome: when `SendCommands` on an `Up`/`Syncing` peer answers
+    `rejected code msg`, the sender ends at once with that outcome and the state `SendCommands` left; conversely
+    an outcome `rejected code msg` always is the result of the sender's last `SendCommands` call. -/
+theorem rejection_returned (w : World) (now : Int) (fuel : Nat) (env : List EnvStep) (retries : Nat) (p : PeerSt)
+    (b : BackendSt) (cb : CmdBackend) (cmds : List String) (c : Int) (m : String) :
+    ((p.status = .up ∨ p.status = .syncing) → (sendCommands w now p b cb cmds).2.2.2 = .rejected c m →
+      sendWithRetry w now (fuel + 1) env retries p b cb cmds =
+        ((sendCommands w now p b cb cmds).1, (sendCommands w now p b cb cmds).2.1, (sendCommands w now p b cb cmds).2.2.1,
+          .rejected c m, env)) ∧
+    ((sendWithRetry w now fuel env retries p b cb cmds).2.2.2.1 = .rejected c m →
+      ∃ p0 b0 cb0, sendCommands w now p0 b0 cb0 cmds =
+        ((sendWithRetry w now fuel env retries p b cb cmds).1, (sendWithRetry w now fuel env retries p b cb cmds).2.1,
+         (sendWithRetry w now fuel env retries p b cb cmds).2.2.1, .rejected c m)) := by
+  constructor
+  · intro hs hr
+    rw [CmdL.sendWithRetry_ready w now fuel env retries p b cb cmds hs]
+    simp only [hr]
+  · intro h
+    obtain ⟨p0, b0, cb0, _, h0⟩ := CmdL.sendWithRetry_last w now cmds (.rejected c m) fuel env retries p b cb (by rw [h]; rfl)
+    exact ⟨p0, b0, cb0, h0⟩
+
+/-- A rejection is not a backend failure: when `SendCommands` answers `rejected`, the peer is left exactly as the
+    connection attempt left it — and when its current address is the backend's, exactly as it was: status, data,
+    last error, update times, everything. -/
+theorem rejection_not_failure (w : World) (now : Int) (p : PeerSt) (b : BackendSt) (cb : CmdBackend) (cmds : List String)
+    (c : Int) (m : String) (h : (sendCommands w now p b cb cmds).2.2.2 = .rejected c m) :
+    (sendCommands w now p b cb cmds).1 =
+        (query w now p { b with mode := (if b.mode == "refuse" then "refuse" else "ok"), failAfter := none }).1 ∧
+    (p.addr = .self → (sendCommands w now p b cb cmds).1 = p) := by
+  have h1 := CmdL.sendCommands_peer w now p b cb cmds
+  rw [h] at h1
+  simp only [] at h1
+  refine ⟨h1, fun ha => ?_⟩
+  rw [h1]
+  rcases CmdL.sendCommands_cases w now p b cb cmds with ⟨_, h2⟩ | ⟨h2, _⟩
+  · rw [h2] at h; cases h
+  · exact CmdL.query_self w now p (CmdL.probeOf b) ha h2
+
+/-! ## 10. an accepted command schedules an immediate refresh -/
+
+/-- When `SendCommands` answers `ok`, the peer's update time and the times of the last full host / service scan are
+    reset to 0 (`ScheduleImmediateUpdate`), and a backend without `last_update` column gets the force flag for a
+    full delta.  Acceptance changes nothing else about the peer as the connection attempt left it: status, data,
+    last error, flags, idle state are those after the connection attempt. -/
+theorem accepted_refreshes (w : World) (now : Int) (p : PeerSt) (b : BackendSt) (cb : CmdBackend) (cmds : List String)
+    (h : (sendCommands w now p b cb cmds).2.2.2 = .ok) :
+    let p' := (sendCommands w now p b cb cmds).1
+    p'.lastUpdate = 0 ∧ p'.lastFullHostUpdate = 0 ∧ p'.lastFullServiceUpdate = 0 ∧
+    (p'.flags &&& flagBit w.schema "HasLastUpdateColumn" = 0 → p'.forceFull = true) ∧
+    (p.addr = .self → p'.status = p.status ∧ p'.cache = p.cache ∧ p'.lastError = p.lastError ∧ p'.idling = p.idling) := by
+  have h1 := CmdL.sendCommands_peer w now p b cb cmds
+  rw [h] at h1
+  simp only [] at h1 ⊢
+  rw [h1]
+  obtain ⟨a1, a2, a3, a4, _⟩ := CmdL.accepted_fields w (query w now p (CmdL.probeOf b)).1
+  refine ⟨a1, a2, a3, a4, fun ha => ?_⟩
+  rcases CmdL.sendCommands_cases w now p b cb cmds with ⟨_, h2⟩ | ⟨h2, _⟩
+  · rw [h2] at h; cases h
+  · rw [CmdL.query_self w now p (CmdL.probeOf b) ha h2]
+    obtain ⟨_, _, _, _, _, b6, b7, b8, b9, _⟩ := CmdL.accepted_fields w p
+    exact ⟨b6, b7, b8, b9⟩
+
+/-- End to end: whenever `SendCommandsWithRetry` reports "sent" — after waiting, after a retry, whatever happened
+    around it — the peer it hands back is scheduled for an immediate refresh. -/
+theorem sent_refreshes (w : World) (now : Int) (fuel : Nat) (env : List EnvStep) (retries : Nat) (p : PeerSt)
+    (b : BackendSt) (cb : CmdBackend) (cmds : List String)
+    (h : (sendWithRetry w now fuel env retries p b cb cmds).2.2.2.1 = .sent) :
+    let p' := (sendWithRetry w now fuel env retries p b cb cmds).1
+    p'.lastUpdate = 0 ∧ p'.lastFullHostUpdate = 0 ∧ p'.lastFullServiceUpdate = 0 ∧
+    (p'.flags &&& flagBit w.schema "HasLastUpdateColumn" = 0 → p'.forceFull = true) := by
+  obtain ⟨p0, b0, cb0, _, h0⟩ := CmdL.sendWithRetry_last w now cmds .ok fuel env retries p b cb (by rw [h]; rfl)
+  have hr : (sendCommands w now p0 b0 cb0 cmds).2.2.2 = .ok := by rw [h0]
+  have hp : (sendCommands w now p0 b0 cb0 cmds).1 = (sendWithRetry w now fuel env retries p b cb cmds).1 := by rw [h0]
+  obtain ⟨a1, a2, a3, a4, _⟩ := accepted_refreshes w now p0 b0 cb0 cmds hr
+  simp only [] at a1 a2 a3 a4 ⊢
+  rw [hp] at a1 a2 a3 a4
+  exact ⟨a1, a2, a3, a4⟩
+
+/-- A peer whose update time was reset to 0 and that does not idle is due at the very next pass of the update loop
+    (the clock, in Unix seconds, is past one update interval): unless the once-a-minute refresh of timeperiods and
+    groups ends the pass early with an error, the pass does not take the "not yet due" exit — it runs. -/
+theorem accepted_is_due (w : World) (now : Int) (p : PeerSt) (b : BackendSt) (hlu : p.lastUpdate = 0)
+    (hidle : PeerL.idlesAt w now p = false) (hnow : w.cfg.updateInterval ≤ now)
+    (htp : (PeerL.tpStep w now (PeerL.idleStep w now p) b p.cache).1 = none) : (tick w now p b).ran = true :=
+  CmdL.tick_due w now p b hlu hidle hnow htp
+
+/-- In particular the pass runs when the minute refresh is not due (same minute as the last one) or the peer holds
+    no data. -/
+theorem accepted_is_due_same_minute (w : World) (now : Int) (p : PeerSt) (b : BackendSt) (hlu : p.lastUpdate = 0)
+    (hidle : PeerL.idlesAt w now p = false) (hnow : w.cfg.updateInterval ≤ now)
+    (h : p.cache = none ∨ p.lastTpMinute = (now / 60) % 60) : (tick w now p b).ran = true :=
+  CmdL.tick_due w now p b hlu hidle hnow (CmdL.tpStep_none w now p b h)
+
+/-- What that pass is for an awake `Up` peer with data (minute refresh and periodic full update not due): a delta
+    update from time 0 — the window is not `[last update, now)` but everything, so every host and service is
+    fetched — and the force flag is consumed. -/
+theorem accepted_next_pass_fetches_all (w : World) (now : Int) (p : PeerSt) (b : BackendSt) (c : Cache)
+    (hc : p.cache = some c) (hs : p.status = .up) (hidle : PeerL.idlesAt w now p = false)
+    (hmin : p.lastTpMinute = (now / 60) % 60) (hlu : p.lastUpdate = 0) (hnow : w.cfg.updateInterval ≤ now)
+    (hfull : ¬ (w.cfg.fullUpdateInterval > 0 ∧ now > p.lastFullUpdate + w.cfg.fullUpdateInterval)) :
+    tick w now p b = PeerL.deltaRun w now { p with lastUpdate := now, forceFull := false } b c 0 :=
+  CmdL.tick_after_accept w now p b c hc hs hidle hmin hlu hnow hfull
+
+/-! ## 11. a waiting sender -/
+
+/-- While the peer is `Warning` or `Pending` and nothing happens around the sender, it keeps waiting: the outcome is
+    "still waiting" (the client runs into its timeout) and nothing was delivered or changed. -/
+theorem waiting_sends_nothing (w : World) (now : Int) (fuel : Nat) (retries : Nat) (p : PeerSt) (b : BackendSt)
+    (cb : CmdBackend) (cmds : List String) (h : p.status = .warning ∨ p.status = .pending) :
+    sendWithRetry w now fuel [] retries p b cb cmds = (p, b, cb, .stillWaiting, []) := by
+  cases fuel with
+  | zero => rfl
+  | succ k => rw [CmdL.sendWithRetry_wait w now k [] retries p b cb cmds h]
+
+/-! ## non-vacuity of the peer layer -/
+
+/-- a world without schema, default configuration -/
+def exWorld : World := { cfg := {}, schema := { tables := [] }, mainRestart := 100 }
+
+/-- a backend in mode "ok" without objects -/
+def exBackend : BackendSt := { tables := [], cols := [] }
+
+/-- an `Up` peer with an (empty) data set -/
+def exPeer : PeerSt := { status := .up, cache := some [], lastError := "", lastOnline := 120, lastUpdate := 120 }
+
+/-- a run of the sender on an `Up` peer: two commands are delivered on one connection, in order; the outcome is
+    "sent" and the peer is scheduled for an immediate refresh (hypotheses of `delivery_complete`,
+    `silent_backend_accepts`, `sent_refreshes` hold) -/
+example :
+    exBackend.mode = "ok" ∧ exBackend.failAfter = none ∧ exPeer.addr = .self ∧ exPeer.sources ≠ [] ∧
+    (sendWithRetry exWorld 130 3 [] 0 exPeer exBackend {} ["[1] A", "[2] B"]).2.2.2.1 = .sent ∧
+    (sendWithRetry exWorld 130 3 [] 0 exPeer exBackend {} ["[1] A", "[2] B"]).2.2.1.batches = [["[1] A", "[2] B"]] ∧
+    (sendWithRetry exWorld 130 3 [] 0 exPeer exBackend {} ["[1] A", "[2] B"]).1.lastUpdate = 0 ∧
+    (sendWithRetry exWorld 130 3 [] 0 exPeer exBackend {} ["[1] A", "[2] B"]).1.forceFull = true := by
+  decide
+
+/-- a backend that rejects: the outcome carries code and message, the peer is untouched -/
+example :
+    (sendWithRetry exWorld 130 3 [] 0 exPeer exBackend { reply := "400: bad command" } ["[1] A"]).2.2.2.1
+      = .rejected 400 "bad command" ∧
+    (sendWithRetry exWorld 130 3 [] 0 exPeer exBackend { reply := "400: bad command" } ["[1] A"]).1.lastUpdate = 120 ∧
+    (sendWithRetry exWorld 130 3 [] 0 exPeer exBackend { reply := "400: bad command" } ["[1] A"]).1.status = .up := by
+  decide
+
+/-- a backend that refuses connections, a peer that stays `Up` (it holds no data yet): one retry, then "retries
+    exceeded", nothing delivered, two `SendCommands` calls -/
+example :
+    (sendWithRetry exWorld 130 5 [] 0 { exPeer with cache := none } { exBackend with mode := "refuse" } {} ["[1] A"]).2.2.2.1
+      = .retriesExceeded ∧
+    (sendWithRetry exWorld 130 5 [] 0 { exPeer with cache := none } { exBackend with mode := "refuse" } {} ["[1] A"]).2.2.1.batches
+      = [] ∧
+    (CmdL.sendWithRetryCount exWorld 130 5 [] 0 { exPeer with cache := none } { exBackend with mode := "refuse" } {} ["[1] A"]).2
+      = 2 := by
+  decide
+
+/-- a `Down` peer and a `Pending` peer: hypotheses of `down_never_sent` and `waiting_sends_nothing` -/
+example :
+    (sendWithRetry exWorld 130 3 [] 0 { exPeer with status := .down } exBackend {} ["[1] A"]).2.2.2.1 = .lastError ∧
+    (sendWithRetry exWorld 130 3 [] 0 { exPeer with status := .pending } exBackend {} ["[1] A"]).2.2.2.1 = .stillWaiting := by
+  decide
+
+/-- a peer after an accepted command at a time past one update interval: hypotheses of `accepted_is_due_same_minute` -/
+example :
+    ({ exPeer with lastUpdate := 0, lastQuery := 125, lastTpMinute := 2 } : PeerSt).lastUpdate = 0 ∧
+    PeerL.idlesAt exWorld 130 { exPeer with lastUpdate := 0, lastQuery := 125, lastTpMinute := 2 } = false ∧
+    exWorld.cfg.updateInterval ≤ 130 ∧
+    ({ exPeer with lastUpdate := 0, lastQuery := 125, lastTpMinute := 2 } : PeerSt).lastTpMinute = ((130 : Int) / 60) % 60 := by
+  decide
 
 end Lmd.C15
